@@ -18,7 +18,7 @@ def dual_mesh(mesh: SurfaceMesh, mode:str = "barycenter") -> SurfaceMesh:
     if mode.lower() == "barycenter":
         dual_pts = face_barycenter(mesh, persistent=False)
     elif mode.lower() == "circumcenter":
-        dual_pts = face_circumcenter(mesh)
+        dual_pts = face_circumcenter(mesh, persistent=False)
     for F in mesh.id_faces:
         out.vertices.append(dual_pts[F])
     for V in mesh.id_vertices:
